@@ -116,14 +116,39 @@ pub fn run(w: &World, seed: u64, rng: &mut Rng, n: usize, trace: &mut Trace, sum
             trace.emit(json!({"ev":"End","buffered": dec.buffered()}));
         }
         // ---- truncation after every k-th byte
-        for cut in (0..total).step_by((total / 60).max(1)) {
+        // (plus, for every frame, the cuts inside and right behind its length prefix and one byte before its end)
+        let mut cuts: Vec<usize> = (0..total).step_by((total / 60).max(1)).collect();
+        let mut off = 0usize;
+        for e in enc.iter() {
+            for c in [off + 1, off + 2, off + 3, off + 4, off + 5, off + e.len() - 1] {
+                if c < total {
+                    cuts.push(c);
+                }
+            }
+            off += e.len();
+        }
+        cuts.sort();
+        cuts.dedup();
+        for cut in cuts {
             trace.emit(json!({"ev":"Reset","run":i,"seed":seed,"mode":"clean","frames":meta,"total":total,"bad":0,"ops":[]}));
             sum.add("histories", 1);
             let mut dec = StreamDecoder::default();
             trace.emit(json!({"ev":"Feed","n": cut}));
             dec.feed(&stream[..cut]);
-            drain(w, &mut dec, trace, sum, true);
+            let alive = drain(w, &mut dec, trace, sum, true);
             trace.emit(json!({"ev":"End","buffered": dec.buffered()}));
+            if alive {
+                // the stream ends here: what the framed reader does next (decode_eof)
+                let r = std::panic::catch_unwind(std::panic::AssertUnwindSafe(|| dec.decode_eof()));
+                sum.add("decode_calls", 1);
+                let res = match r {
+                    Err(_) => "PANIC",
+                    Ok(Ok(None)) => "none",
+                    Ok(Ok(Some(_))) => "frame",
+                    Ok(Err(_)) => "err",
+                };
+                trace.emit(json!({"ev":"Eof","res":res}));
+            }
         }
         // ---- one length prefix overwritten with MAX+1
         for (fi, _) in enc.iter().enumerate() {
@@ -285,8 +310,24 @@ fn other_decoders(w: &World, rng: &mut Rng, frames: &[Frame], trace: &mut Trace,
             fuzz_one("heads", &mutate(rng, &bytes), |b| AuthorHeads::decode(b).map_err(|e| e.to_string()), trace, sum);
         }
     }
-    // capability
-    for cap in [Capability::Write(w.ns.clone()), Capability::Read(w.nsid())] {
+    // capability: the world's own, plus read capabilities for ARBITRARY 32-byte ids (every byte string is a document id - a
+    // read-only import does not ask for a curve point) and write capabilities of fresh secrets
+    let mut caps = vec![Capability::Write(w.ns.clone()), Capability::Read(w.nsid())];
+    for i in 0..6u8 {
+        let mut id = [0u8; 32];
+        for b in id.iter_mut() {
+            *b = rng.below(256) as u8;
+        }
+        if i == 0 {
+            id = [2u8; 32];
+        }
+        if i == 1 {
+            id = [0xFF; 32];
+        }
+        caps.push(Capability::Read(iroh_docs::NamespaceId::from(&id)));
+        caps.push(Capability::Write(iroh_docs::NamespaceSecret::from_bytes(&id)));
+    }
+    for cap in caps {
         let bytes = postcard::to_stdvec(&cap).unwrap();
         let back: Result<Capability, _> = postcard::from_bytes(&bytes);
         trace.emit(json!({"ev":"RT","dec":"capability","same": back.map(|b| b.raw() == cap.raw()).unwrap_or(false)}));
